@@ -2,6 +2,57 @@
 
 package configure
 
+// Loader list of a Configure as an abstract sequence: NLoaders entries LoaderAt[0..NLoaders).
+//@ ghost field (Configure) NLoaders int
+//@ ghost field (Configure) LoaderAt map[int]Loader
+
+//@ bind (c *configure) Configure.NLoaders = len(c.loaders) footprint c.loaders
+//@ bind (c *configure) Configure.LoaderAt[i] = c.loaders[i] footprint c.loaders, elems(c.loaders)
+
+// Ghost trace of configuration loading (C15, C12): the loaders invoked, what each returned, and what was fed to the binder.
+//   LoadAt[k] / LoadOut[k] / LoadSrc[k]   k-th loader invoked, its output, its position in the sequenced list
+//   FedAt[f] / FedFrom[f]                 f-th document handed to Binder.SetConfig and the load it came from
+//@ ghost var LoadLen int
+//@ ghost var LoadAt map[int]Loader
+//@ ghost var LoadOut map[int][]byte
+//@ ghost var LoadSrc map[int]int
+//@ ghost var FedLen int
+//@ ghost var FedAt map[int][]byte
+//@ ghost var FedFrom map[int]int
+//@ ghost var FedOf map[int]int
+
+//@ method (Loader).LoadConfig
+//@ property C15 C12
+//@ assigns LoadLen, LoadAt, LoadOut, Failed
+//@ ensures [load-traced] LoadLen == old(LoadLen) + 1 && LoadAt == store(old(LoadAt), old(LoadLen), self) && LoadOut == store(old(LoadOut), old(LoadLen), result0)
+//@ ensures [failure-recorded] Failed == (old(Failed) || result1 != nil)
+
+//@ method (Binder).SetConfig
+//@ property C15
+//@ assigns FedLen, FedAt, Failed
+//@ ensures [fed-traced] FedLen == old(FedLen) + 1 && FedAt == store(old(FedAt), old(FedLen), c)
+//@ ensures [failure-recorded] Failed == (old(Failed) || result != nil)
+
+// ---- the loader list ---------------------------------------------------------------------------------
+
+//@ method (Configure).AddLoaders
+//@ property C15
+//@ assigns self.NLoaders, self.LoaderAt
+//@ ensures [appends] self.NLoaders == old(self.NLoaders) + len(loaders)
+//@ ensures [keeps-earlier] forall(i, int, implies(0 <= i && i < old(self.NLoaders), self.LoaderAt[i] == old(self.LoaderAt[i])))
+//@ ensures [adds-in-order] forall(i, int, implies(0 <= i && i < len(loaders), self.LoaderAt[old(self.NLoaders) + i] == loaders[i]))
+
+//@ method (Configure).SetLoaders
+//@ property C15
+//@ assigns self.NLoaders, self.LoaderAt
+//@ ensures [replaces] self.NLoaders == len(loaders) && forall(i, int, implies(0 <= i && i < len(loaders), self.LoaderAt[i] == loaders[i]))
+
+//@ func (*configure).AddLoaders
+//@ implements Configure
+
+//@ func (*configure).SetLoaders
+//@ implements Configure
+
 // Start-up phase contract of Configure.Initialize as seen by the application (C09, C13): it may change any
 // configuration state, records a failure in the ghost trace, and invokes no runner.
 
@@ -11,3 +62,42 @@ package configure
 //@ ensures [failure-recorded] Failed == (old(Failed) || result != nil)
 //@ ensures [no-runner] RanLen == old(RanLen) && RanAt == old(RanAt) && RanSrc == old(RanSrc)
 //@ ensures [not-refreshed] Refreshed == old(Refreshed)
+
+// ---- loading: loaders are invoked in the sequence given by the ordering contract; every non-empty output is fed to
+// the binder, in that same order, unchanged; loading stops at the first error (C15, C12, C09) ---------------------
+
+//@ func (*configure).loadConfigure
+//@ property C15 C12
+//@ requires [binder-set] c.Binder != nil
+//@ requires [loaders-non-nil] forall(k, int, implies(0 <= k && k < len(c.loaders), c.loaders[k] != nil))
+//@ assigns c.loaders, LoadLen, LoadAt, LoadOut, LoadSrc, FedLen, FedAt, FedFrom, FedOf, Failed
+//@ let n = len(c.loaders)
+//@ let load0 = LoadLen
+//@ let fed0 = FedLen
+//@ let in = c.loaders
+//@ ensures [all-loaded] implies(result == nil, LoadLen == load0 + n)
+//@ ensures [each-from-the-list] forall(k, int, implies(load0 <= k && k < LoadLen, 0 <= LoadSrc[k] && LoadSrc[k] < n && LoadAt[k] == oldat(in, LoadSrc[k])), LoadAt[k])
+//@ ensures [exactly-once] forall(a, int, forall(b, int, implies(load0 <= a && a < b && b < LoadLen, LoadSrc[a] != LoadSrc[b]), LoadSrc[b]), LoadSrc[a])
+//@ ensures [classes-in-order] forall(a, int, forall(b, int, implies(load0 <= a && a < b && b < LoadLen, Cls(LoadAt[a]) <= Cls(LoadAt[b])), LoadAt[b]), LoadAt[a])
+//@ ensures [order-nondecreasing] forall(a, int, forall(b, int, implies(load0 <= a && a < b && b < LoadLen && Cls(LoadAt[a]) == Cls(LoadAt[b]) && Cls(LoadAt[a]) < 2, Ord(LoadAt[a]) <= Ord(LoadAt[b])), LoadAt[b]), LoadAt[a])
+//@ ensures [unordered-keep-added-order] forall(a, int, forall(b, int, implies(load0 <= a && a < b && b < LoadLen && Cls(LoadAt[a]) == 2 && Cls(LoadAt[b]) == 2, LoadSrc[a] < LoadSrc[b]), LoadAt[b]), LoadAt[a])
+//@ ensures [fed-from-loads] forall(f, int, implies(fed0 <= f && f < FedLen, load0 <= FedFrom[f] && FedFrom[f] < LoadLen && FedAt[f] == LoadOut[FedFrom[f]] && len(FedAt[f]) != 0), FedAt[f])
+//@ ensures [fed-in-load-order] forall(f, int, forall(g, int, implies(fed0 <= f && f < g && g < FedLen, FedFrom[f] < FedFrom[g]), FedFrom[g]), FedFrom[f])
+//@ ensures [nonempty-loads-fed] implies(result == nil, forall(k, int, implies(load0 <= k && k < LoadLen && len(LoadOut[k]) != 0, fed0 <= FedOf[k] && FedOf[k] < FedLen && FedFrom[FedOf[k]] == k), LoadOut[k]))
+//@ ensures [stops-at-first-error] implies(result != nil, LoadLen > load0 && LoadLen <= load0 + n)
+//@ ensures [failure-recorded] Failed == (old(Failed) || result != nil)
+//@ ghost after call LoadConfig: LoadSrc = store(LoadSrc, LoadLen - 1, tag(c.loaders, i))
+//@ ghost after call SetConfig: FedFrom = store(FedFrom, FedLen - 1, LoadLen - 1)
+//@ ghost after call SetConfig: FedOf = store(FedOf, LoadLen - 1, FedLen - 1)
+//@ loop 1 invariant [trace-length] LoadLen == load0 + _done && 0 <= _done && _done <= len(c.loaders) && FedLen >= fed0
+//@ loop 1 invariant [no-failure-so-far] Failed == old(Failed)
+//@ loop 1 invariant [trace-is-sorted-prefix] forall(m, int, implies(load0 <= m && m < load0 + _done, LoadAt[m] == c.loaders[m - load0] && LoadSrc[m] == tag(c.loaders, m - load0)), LoadAt[m], LoadSrc[m])
+//@ loop 1 invariant [fed-from-loads] forall(f, int, implies(fed0 <= f && f < FedLen, load0 <= FedFrom[f] && FedFrom[f] < LoadLen && FedAt[f] == LoadOut[FedFrom[f]] && len(FedAt[f]) != 0), FedAt[f], FedFrom[f])
+//@ loop 1 invariant [fed-in-load-order] forall(f, int, forall(g, int, implies(fed0 <= f && f < g && g < FedLen, FedFrom[f] < FedFrom[g]), FedFrom[g]), FedFrom[f])
+//@ loop 1 invariant [nonempty-loads-fed] forall(k, int, implies(load0 <= k && k < LoadLen && len(LoadOut[k]) != 0, fed0 <= FedOf[k] && FedOf[k] < FedLen && FedFrom[FedOf[k]] == k), LoadOut[k], FedOf[k])
+
+//@ func (*configure).Initialize
+//@ implements Configure
+//@ property C15
+//@ requires [binder-set] c.Binder != nil
+//@ requires [loaders-non-nil] forall(k, int, implies(0 <= k && k < len(c.loaders), c.loaders[k] != nil))
